@@ -31,6 +31,15 @@ namespace lp
 
     struct StepDone
     { };
+    // thrown out of send()/sendfile() when the caller keeps retrying a descriptor that answers would-block
+    // without returning to epoll_wait (busy-wait): ends the step instead of spinning forever
+    struct Livelock
+    {
+        int fd;
+    };
+    static constexpr int kBusyWaitLimit = 3;
+    static constexpr size_t kHalf       = (size_t)-2; // ACCEPT placeholders resolved against the asked length
+    static constexpr size_t kAllButOne  = (size_t)-3;
 
     enum AnsKind { FULL,
                    ACCEPT,
@@ -57,10 +66,13 @@ namespace lp
         int epoll_calls   = 0;
         std::map<int, std::deque<Answer>> plan;      // per socket fd: answers for successive write calls
         std::map<int, bool> held;                    // fd held in would-block (EPOLLOUT suppressed)
+        std::map<int, int> release_in;               // fd -> loop steps until the harness should release it (from the plan)
+        uint64_t plan_used = 0;                      // plan entries consumed (non-default answers actually hit)
         std::map<std::pair<int, int>, epoll_event> interest; // (epfd, fd) -> last registered event
         std::vector<SendRecord> sends;               // every write call observed
         std::map<int, int> consecutive_block;        // fd -> would-block answers since the last epoll_wait
         int max_consecutive_block = 0;
+        bool livelock             = false;
         std::vector<int> event_order;                // optional: order in which fds' events are handed out (front first)
         uint64_t send_calls = 0;
         void reset()
@@ -155,20 +167,39 @@ static ssize_t lp_answer(int fd, size_t len, bool file, const std::function<ssiz
         it->second.pop_front();
     }
     ssize_t r;
+    if (a.kind != lp::FULL && !held)
+        ++w.plan_used;
     if (a.kind == lp::BLOCK)
     {
+        if (!held)
+            w.release_in[fd] = (int)a.k;
         w.held[fd] = true;
         errno      = EAGAIN;
         r          = -1;
         int c      = ++w.consecutive_block[fd];
         if (c > w.max_consecutive_block)
             w.max_consecutive_block = c;
+        if (c >= lp::kBusyWaitLimit)
+        {
+            // the caller retries without going back to epoll_wait: record the busy-wait verdict and let the
+            // descriptor accept data again, so that the execution ends instead of spinning forever
+            w.livelock = true;
+            w.held[fd] = false;
+        }
     }
     else
     {
         size_t n = len;
-        if (a.kind == lp::ACCEPT && a.k < len)
-            n = a.k;
+        if (a.kind == lp::ACCEPT)
+        {
+            size_t k = a.k;
+            if (k == lp::kHalf)
+                k = len / 2 ? len / 2 : 1;
+            else if (k == lp::kAllButOne)
+                k = len > 1 ? len - 1 : 1;
+            if (k < len)
+                n = k;
+        }
         r = doit(n);
     }
     w.sends.push_back({ fd, len, r, file });
@@ -206,8 +237,29 @@ namespace lp
         return n - 3; // ".", "..", and the directory's own descriptor
     }
 
+    inline std::vector<int> list_fds()
+    {
+        std::vector<int> v;
+        DIR* d = opendir("/proc/self/fd");
+        if (!d)
+            return v;
+        int self = dirfd(d);
+        while (auto* e = readdir(d))
+        {
+            if (e->d_name[0] == '.')
+                continue;
+            int fd = atoi(e->d_name);
+            if (fd != self)
+                v.push_back(fd);
+        }
+        closedir(d);
+        std::sort(v.begin(), v.end());
+        return v;
+    }
+
     struct Loop
     {
+        std::vector<int> fdsBefore; // pistache never closes its NotifyFd descriptors: the harness reclaims them
         std::shared_ptr<Aio::Reactor> reactor;
         std::shared_ptr<Tcp::Transport> transport;
         Aio::Reactor::Key key;
@@ -215,6 +267,7 @@ namespace lp
 
         explicit Loop(const std::shared_ptr<Tcp::Handler>& handler)
         {
+            fdsBefore = list_fds();
             W().reset();
             reactor = Aio::Reactor::create();
             reactor->init(Aio::SyncContext());
@@ -233,6 +286,12 @@ namespace lp
             // close server-side sockets still owned by the transport
             for (auto& p : transport->peers)
                 ::close(p.first);
+            transport.reset();
+            reactor.reset();
+            // whatever this loop opened and did not close (eventfds of NotifyFd, files of abandoned writes)
+            for (int fd : list_fds())
+                if (!std::binary_search(fdsBefore.begin(), fdsBefore.end(), fd))
+                    ::close(fd);
         }
 
         // returns the client end; the server end is registered as a new peer
@@ -264,6 +323,8 @@ namespace lp
                 reactor->runOnce();
             }
             catch (const StepDone&)
+            { }
+            catch (const Livelock&)
             { }
             return w.had_events;
         }
